@@ -18,14 +18,15 @@ Canon(c) == /\ (c.late => (c.typed # "none" /\ c.any # "none"))
             /\ (~HasRestart(c) => (c.max = 0 /\ c.win = "zero" /\ ~c.backoff))
             /\ (c.max = 0 => c.win \in {"zero", "short"})           \* no budget: only the counter reset is observable
             /\ (c.backoff => c.win # "zero")                        \* backoff always installs a positive window
-FullConfigs(strats, ptypeds, maxes, wins, backoffs) ==
+            /\ (c.mix => \E e \in ErrTypes : Lookup(c, e) \in {"Stop", "Restart"})   \* strategies only matter for group directives
+FullConfigs(strats, ptypeds, maxes, wins, backoffs, mixes) ==
   {c \in [strat : strats, typed : AllDirs, ptyped : ptypeds, any : AllDirs, late : BOOLEAN,
-          max : maxes, win : wins, backoff : backoffs] : Canon(c)}
+          max : maxes, win : wins, backoff : backoffs, mix : mixes] : Canon(c)}
 FullPConfigs == [dir : Dirs, onsig : {"ignore", "fail"}]
 
 (* p's configuration only matters when p can fail: directly or through an escalation   *)
-MCConfigsQ  == FullConfigs({"one", "all"}, {"default", "Restart"}, {0, 1, 2}, {"zero", "short", "long"}, {FALSE})
-MCConfigsT  == FullConfigs({"one", "all"}, {"default", "Restart", "Resume", "Escalate"}, {0, 1, 2}, {"zero", "short", "long"}, BOOLEAN)
+MCConfigsQ  == FullConfigs({"one", "all"}, {"default", "Restart"}, {0, 1, 2}, {"zero", "short", "long"}, {FALSE}, BOOLEAN)
+MCConfigsT  == FullConfigs({"one", "all"}, {"default", "Restart", "Resume", "Escalate"}, {0, 1, 2}, {"zero", "short", "long"}, BOOLEAN, BOOLEAN)
 MCPConfigs  == FullPConfigs
 
 MCInit == Init /\ abs = InitS
